@@ -82,6 +82,14 @@ func c03Gen(r *Rng, i int, thorough bool) c03Case {
 		switch {
 		case x < 15:
 			c.Ops = append(c.Ops, c03Op{Op: "pass"})
+		case x < 26 && x >= 22: // a stopwatch (elapsed time from a scripted clock)
+			d := int64(r.Intn(2000)) - 5
+			if len(c.Spec) > 0 && (c.Dur || c.Nil) && r.Chance(50) {
+				if b := c.Spec[r.Intn(len(c.Spec))]; b > -(1<<40) && b < 1<<40 {
+					d = b + int64(r.Intn(3)) - 1
+				}
+			}
+			c.Ops = append(c.Ops, c03Op{Op: "sw", V: d})
 		case x < 22: // the other kind: must be ignored
 			if c.Dur || c.Nil {
 				c.Ops = append(c.Ops, c03Op{Op: "v", V: fbits(r.F64())})
@@ -298,6 +306,33 @@ func c03Run(c *c03Case) (in []Ev, obs []Ev, fail string) {
 						p, _ := expectBucket(o.V)
 						pending[p]++
 					}
+				}
+			}()
+		case "sw":
+			// a stopwatch: Start(), then Stop() after o.V nanoseconds of a scripted clock; a duration
+			// histogram records the elapsed time, a value histogram ignores it
+			func() {
+				defer func() {
+					if p := recover(); p != nil {
+						fail = fmt.Sprintf("stopwatch of %d ns panicked: %v", o.V, p)
+						obs = append(obs, Ev{K: 98})
+					}
+				}()
+				in = append(in, Ev{K: 32, I: []int64{o.V}})
+				reads := 0
+				restore := tally.VerifSetNow(func() time.Time {
+					reads++
+					if reads == 1 {
+						return time.Unix(1000, 0)
+					}
+					return time.Unix(1000, 0).Add(time.Duration(o.V))
+				})
+				sw := h.Start()
+				sw.Stop()
+				restore()
+				if hdur {
+					p, _ := expectBucket(o.V)
+					pending[p]++
 				}
 			}()
 		case "pass":
